@@ -1,7 +1,7 @@
 (* C13 - boundary operators form a chain complex. *)
 From Coq Require Import String ZArith List Bool.
 From XV Require Import Base.Label Base.LSet Base.ODict Base.Attr Base.Outcome Model.Hypergraph
-  Model.SimplicialComplex Model.Hodge Proofs.HgViews Proofs.ScInv Proofs.HodgeProofs Proofs.HodgeMore Proofs.SortProofs Proofs.ChainComplex.
+  Model.SimplicialComplex Model.Hodge Proofs.HgViews Proofs.ScInv Proofs.HodgeProofs Proofs.HodgeMore Proofs.SortProofs Proofs.ChainComplex Model.Stats Model.Graph Proofs.GraphProofs Proofs.HodgeKernel.
 Import ListNotations.
 Open Scope Z_scope.
 
@@ -74,3 +74,25 @@ Proof.
   exact (srun_SInv ops hg_empty SInv_empty).
 Qed.
 Print Assumptions C13_boundary_product_zero.
+
+(* the order-0 Laplacian: its quadratic form is the sum over the 1-simplices {a, b} of (y_b - y_a)^2,
+   and L_0 y = 0 exactly when y is constant on connected components - the kernel is spanned by the
+   indicator vectors of the components, so its dimension is their number.  For every simplicial-complex
+   state reachable by any history, number/string labels, every orientation. *)
+Theorem C13_L0_quadratic_form : forall ops orient (y : lbl -> Z),
+  let s := srun ops hg_empty in
+  Orderable s ->
+  let n := length (cols_of s orient 0) in
+  sumZ (fun i => sumZ (fun j => vec s y i * entry (hodge_laplacian s orient 0) i j * vec s y j) (seq 0 n)) (seq 0 n) =
+  sumZ (fun sigma => gap y sigma * gap y sigma) (map snd (cols_of s orient 1)).
+Proof. intros ops orient y s Ho. apply L0_quadratic; [exact (srun_SInv ops hg_empty SInv_empty)|exact Ho]. Qed.
+Print Assumptions C13_L0_quadratic_form.
+
+Theorem C13_L0_kernel : forall ops orient (y : lbl -> Z),
+  let s := srun ops hg_empty in
+  Orderable s ->
+  let n := length (cols_of s orient 0) in
+  (forall i, (i < n)%nat -> Lvec s orient y i = 0) <->
+  (forall a b, In a (keys (h_node s)) -> Reach s a b -> y a = y b).
+Proof. intros ops orient y s Ho. apply L0_kernel_components; [exact (srun_SInv ops hg_empty SInv_empty)|exact Ho]. Qed.
+Print Assumptions C13_L0_kernel.
